@@ -668,7 +668,7 @@ func optionStores(p *pkgFiles, fn, key string) [][2]string {
 // ---- Table 2: FingerOrder
 
 func genFingerOrder() {
-	l := newLean("FingerOrder", "Order of the file-system / process effects and of the returns inside the fingerprint\ncheckers (guard chains as in DryWiring; entries `assign …` are stores into maps and\nappends; `swallowedErrReturns` lists the returns that sit directly under an err\ncondition yet do not return the err, as `return … | condition | source of that err`).")
+	l := newLean("FingerOrder", "Order of the file-system / process effects and of the returns inside the fingerprint\ncheckers (guard chains as in DryWiring; entries `assign …` are stores into maps and\nappends; `swallowedErrReturns` lists the returns that sit directly under an err\ncondition yet do not return the err, as `return … | condition | source of that err`;\na return that does hand the error on is listed in place as `propagate return …`).")
 	fp := loadDir("internal/fingerprint")
 	flattenLayout()
 	interesting := setOf("os.ReadFile", "os.WriteFile", "os.MkdirAll", "os.Create", "os.Chtimes", "os.Stat",
@@ -706,6 +706,11 @@ func genFingerOrder() {
 			case skErrReturn:
 				if e.swallow {
 					swal = append(swal, e)
+				} else {
+					// a return that hands the error on: listed IN PLACE (`propagate return …`, guards =
+					// `condition | source of that error`), so that its position relative to the writes is pinned
+					e.what = "propagate " + e.what
+					table = append(table, e)
 				}
 			}
 		}
